@@ -97,7 +97,7 @@ func init() {
 			"plus each of ~55 recursive or repetitive constructs of the nesting family at depths 1,2,3,10,100,1000,10000 and the largest fitting 64 KiB, and its run-time members (json.decode/json.indent of texts nested n deep built by string repetition up to n=10^5 (thorough: 10^6) and one member at 10^7, recursion through def / sorted key / max key up to the 100000-frame limit with a 2*10^7 budget, values nested by a loop then printed, hashed, compared, frozen); each text is parsed, resolved, compiled and executed by starlark.ExecFileOptions with json/math/time/struct predeclared and a 100000-step budget; " +
 			"(3) every pointed graph with <= 3 nodes over {list, dict, tuple-with-list, struct-with-list, closure, module} with every edge assignment (all nodes reachable from the root), each built afresh and put through each operation. " +
 			"Oracle per case: returns normally (value or error), no recovered Go panic, no death of the worker process (classified from the runtime's own message; out-of-memory from one huge allocation is counted, not alarmed), ExecutionSteps() <= budget+1 on return. " +
-			"Every executed case is non-trivial in the sense that the implementation's code ran on it and the oracle judged its ending; stage counters say how far each got",
+			"Non-trivial (counted per executed case, every case is distinct by construction of the enumeration): a call that returned a value or failed with something other than an argument-count/keyword-binding message; a text that the parser accepted (so the resolver, compiler or VM judged it); every nesting-family member and attribute read; a graph case whose graph has a reference cycle. The remaining cases (arity errors, texts rejected by the parser, acyclic graphs) are executed and judged by the same oracle but not counted as non-trivial",
 		Run: run, Worker: worker, Replay: replay,
 		Assumptions: []string{
 			"families 1 and 3 run with the Go maximum stack lowered to 64 MiB (their inputs are at most 3-node graphs and pool values, so finite recursion is a few frames deep and only unbounded recursion can reach either limit); the nesting family keeps the runtime default (1 GB) because there depth is the variable",
@@ -910,7 +910,6 @@ func (w *wk) begin(cs *Case) bool {
 	w.caseIdx.Store(w.idx - 1)
 	w.caseStart.Store(time.Now().UnixNano())
 	w.st.Evals++
-	w.st.Nontrivial++
 	w.st.Count("level_cases:"+w.level, 1)
 	return true
 }
